@@ -74,7 +74,7 @@ def build_mesh(m):
     elif gen == "Grid":
         mesh = fem.Grid(*[np.asarray(x, dtype=float) for x in m["xi"]])
     elif gen == "Circle":
-        mesh = fem.Circle(n=int(n), radius=m.get("radius", 1.0))
+        mesh = fem.Circle(n=int(n[0] if isinstance(n, (list, tuple)) else n), radius=m.get("radius", 1.0))
     else:
         raise ValueError(gen)
     p = m.get("perturb")
